@@ -41,6 +41,7 @@ type scheduler struct {
 	n          int // schedule decisions offered so far (names the Choose)
 	preempts   int
 	picks      int
+	free       int // >0 while a goroutine started by a plain go statement runs (to completion, unscheduled)
 	maxPicks   int
 	maxPreempt int
 	fatal      any
@@ -170,6 +171,15 @@ func (s *scheduler) describe() string {
 	return d
 }
 
+// runFree: a plain go statement of the code under test. Only goroutines started with vrt.Go are
+// interleaved; these run to completion at the go statement (natively they run unscheduled).
+func (s *scheduler) runFree(fn Value, args []Value) {
+	s.free++
+	saved := s.in.curFr
+	defer func() { s.free--; s.in.curFr = saved }()
+	s.in.call(nil, fn, args)
+}
+
 // pick chooses the goroutine that runs next when the current one cannot go on (a decision of the path
 // when there is more than one candidate); nil if none can run.
 func (s *scheduler) pick(why string) *gthread {
@@ -213,7 +223,7 @@ func (s *scheduler) point() {
 	if s.in.spec != nil {
 		panic(pathAbort{"nospec", "schedule point inside a speculatively executed block"})
 	}
-	if s.preempts >= s.maxPreempt {
+	if s.free > 0 || s.preempts >= s.maxPreempt {
 		return
 	}
 	o := s.others()
@@ -241,6 +251,9 @@ func (s *scheduler) block(ready func() bool, why string) {
 		panic(pathAbort{"nospec", "blocking operation inside a speculatively executed block"})
 	}
 	me := s.cur
+	if s.free > 0 && !ready() {
+		panic(pathAbort{"blocked", "a goroutine started by a plain go statement would block (" + why + "); under the scheduler those run to completion at the go statement"})
+	}
 	for !ready() {
 		me.ready, me.why = ready, why
 		next := s.pick(why)
@@ -356,14 +369,7 @@ func (s *scheduler) intercept(name string, caller *frame, fn *ssa.Function, a []
 		s.block(func() bool { return s.wgs[p.cell] == 0 }, "WaitGroup.Wait")
 		return nil, true
 	case "(*sync.WaitGroup).Go":
-		p := a[0].(Ptr)
-		s.wgs[p.cell]++
-		f := a[1]
-		s.spawn(&NativeFn{f: func(in *Interp, _ []Value) Value {
-			in.call(nil, f, nil)
-			s.wgs[p.cell]--
-			return nil
-		}}, nil)
+		s.runFree(a[1], nil)
 		return nil, true
 	case "runtime.Gosched", "time.Sleep":
 		if s.countable(caller) {
@@ -371,12 +377,12 @@ func (s *scheduler) intercept(name string, caller *frame, fn *ssa.Function, a []
 		}
 		return nil, true
 	}
-	if base != nil && strings.Contains(name, "sync/atomic.") {
-		r, h := base(in, caller, fn, a)
-		if h && s.countable(caller) {
+	if base != nil && (strings.Contains(name, "sync/atomic.") || strings.HasPrefix(name, "(*sync.Map).")) {
+		// the schedule point comes before the operation (natively: SchedFn / SchedRecv)
+		if s.countable(caller) {
 			s.point()
 		}
-		return r, h
+		return base(in, caller, fn, a)
 	}
 	return nil, false
 }
